@@ -80,9 +80,11 @@ func RenameFileCopyPermissions(srcfile, destfile string) error {
 		}
 	}
 
+	VerifFs("rename", srcfile, destfile)
 	if err := RobustRename(srcfile, destfile); err != nil {
 		return errors.New(tr.Tr.Get("cannot replace %q with %q: %v", destfile, srcfile, err))
 	}
+	VerifFs("renamed", srcfile, destfile)
 	return nil
 }
 
@@ -457,6 +459,7 @@ func TempFile(dir, pattern string, cfg repositoryPermissionFetcher) (*os.File, e
 	if err != nil {
 		return nil, err
 	}
+	VerifFs("create", "", tmp.Name())
 
 	perms := cfg.RepositoryPermissions(false)
 	err = os.Chmod(tmp.Name(), perms)
